@@ -101,7 +101,8 @@ def _worker(args):
         except Exception:  # noqa: BLE001  harness exception: reported apart from violations
             out.append({"idx": idx, "harness_error": traceback.format_exc()[-1500:]})
             continue
-        rec = {"idx": idx, "ok": res["ok"], "digest": res.get("digest"), "probes": res.get("probes", {}),
+        rec = {"idx": idx, "ok": res["ok"], "digest": res.get("digest") or res.get("history_digest"),
+               "probes": res.get("probes", {}),
                "ops": res.get("ops_run", 0), "aborted": res.get("aborted"), "faults": res.get("faults_fired", {}),
                "nontrivial": bool(check.nontrivial(res)), "est": res.get("estimating_steps", 0),
                "extra": res.get("extra")}
@@ -378,7 +379,7 @@ def run_check(check, tier, workers=None):
     err = validate_evidence(ev)
     os.makedirs(EVIDENCE, exist_ok=True)
     write_json(os.path.join(EVIDENCE, "%s.json" % prop), ev)
-    if err:
+    if err and not reported:
         harness_error("evidence does not validate: %s" % err)
     for line in sorted(set(known_lines)):
         print(line)
